@@ -30,14 +30,17 @@ Record jws := mk_jws {
   j_exp : Z             (* the SIGNED expiration claim *)
 }.
 
-Inductive status := SUp | SDown | SErroring.
+(* SMisleading: an erroring replica (any result code but success / invalidCredentials) whose
+   diagnostic TEXT contains the words "Invalid Credentials" *)
+Inductive status := SUp | SDown | SErroring | SMisleading.
 
 (* The diagnostic text a directory attaches to a refusal: nothing, a plain sentence (OpenLDAP
    style), or Active Directory's "AcceptSecurityContext error, data <sub>, ..." with its sub
    status (0x52e bad password, 0x525 no such user, 0x530/0x531 logon restriction, 0x532
    password expired, 0x533 account disabled, 0x701 account expired, 0x773 must reset, 0x775
    locked out ...). *)
-Inductive diag := DNone | DPlain | DAD (sub : N).
+Inductive diag := DNone | DPlain | DAD (sub : N)
+| DMentions.   (* a text that contains the words "Invalid Credentials" (under whatever result code) *)
 
 (* what one bind attempt brings back: bound; an LDAP result (code, diagnostic); or no LDAP
    answer at all (connection / TLS failure, timeout) *)
@@ -92,6 +95,7 @@ Definition bind_at (s : pstate) (sv : status) (p : nat) (u pw : N) : reply :=
   | SUp => if entry_accepts s u pw && Nat.eqb (home s u) p then RBound
            else RRefused invalid_credentials (if Nat.eqb (home s u) p then refusal_diag s u else style s)
   | SErroring => RRefused other_code (style s)
+  | SMisleading => RRefused other_code DMentions
   | SDown => RSilent
   end.
 (* the attempt under the first pattern *)
@@ -100,9 +104,16 @@ Definition bind (s : pstate) (sv : status) (u pw : N) : reply := bind_at s sv 0 
 (* lib/authutil CheckLDAPUserPassword: bound -> (true, nil); an error whose text contains
    "Invalid Credentials", i.e. (go-ldap prints `LDAP Result Code 49 "Invalid Credentials":
    <diagnostic>`) result code 49 WHATEVER the diagnostic -> (false, nil); everything else is an
-   error = "this server did not answer".  [interp code diag] is that middle part. *)
+   error = "this server did not answer".  [interp code diag] is that middle part.  Since the repair
+   the RESULT CODE is tested (ldap.IsErrorWithCode), not the text. *)
 Definition interp_code (c : N) (d : diag) : option bool :=
   if N.eqb c invalid_credentials then Some false else None.
+(* the code before the repair tested the error TEXT for "Invalid Credentials": go-ldap prints
+   `LDAP Result Code <n> "<name of n>": <diagnostic>`, so that is result code 49 - or ANY other
+   result code whose diagnostic mentions the words (refuted in Props/C07.v) *)
+Definition interp_text (c : N) (d : diag) : option bool :=
+  if N.eqb c invalid_credentials then Some false
+  else match d with DMentions => Some false | _ => None end.
 (* a reading of the diagnostic that lets only "bad password" / "no such user" count as a verdict
    (what an Active-Directory-aware refinement might do): refuted in Props/C07.v *)
 Definition interp_ad (c : N) (d : diag) : option bool :=
@@ -197,6 +208,38 @@ Definition login_gen (claim_checked : bool) (interp : N -> diag -> option bool) 
 
 Definition login := login_gen true interp_code step.
 
+(* ANOTHER keymaster instance (the normal HA set-up): same signing key, same directory, the SAME
+   primary database, a local cache database of its own (which plays no role for this instance).
+   Its passwordAuthenticate reads and writes the shared primary over a link of its own - whatever
+   this instance's view of the primary is - and its write-through goes to ITS cache, not to ours:
+   a confirmed login there puts a new record into the primary only, a rejection of the password the
+   primary's row hashes deletes that row from the primary only; when no replica answers it writes
+   nothing. *)
+Definition peer_view (s : pstate) : pstate :=
+  with_st s (mk_state (primary (st s)) (cache (st s)) (now (st s)) Up).
+
+Definition set_primary_row (s : state) (u : N) (r : option srow) : state :=
+  with_primary s (set_signed (primary s) (match r with
+                                          | Some r => aset skey_eqb (u, pw_type) r (signed (primary s))
+                                          | None => adel skey_eqb (u, pw_type) (signed (primary s))
+                                          end)).
+
+Definition peer_login (claim_checked : bool) (interp : N -> diag -> option bool) (s : pstate) (u pw : N) : pstate :=
+  match first_answer_gen interp s (servers s) u pw with
+  | Some true =>
+      let id := N.of_nat (length (jwss s)) in
+      let n := now (st s) in
+      mk_pstate (set_primary_row (st s) u (Some (mk_srow id (n + cache_secs) n)))
+                (dir s) (servers s)
+                (jwss s ++ [mk_jws true u pw n (n + cache_secs)]) (acct s) (style s) (extra_patterns s) (homes s)
+  | Some false =>
+      match get_pw claim_checked (peer_view s) u with
+      | GOk j => if N.eqb (j_pw j) pw then with_st s (set_primary_row (st s) u None) else s
+      | _ => s
+      end
+  | None => s
+  end.
+
 (* tampering by SQL *)
 Inductive which := WPrimary | WCache.
 Inductive forged_or := RExisting (id : N) | RForged (sub pw : N) (nbf exp : Z) | RDelete.
@@ -221,7 +264,8 @@ Inductive pop :=
 | Tamper (w : which) (slot : N) (r : forged_or) (col_exp : Z)
 | SetAcct (u : N) (d : option diag)     (* the account is put out of order (refused with diagnostic d) / back in order *)
 | SetStyle (d : diag)
-| SetHome (u : N) (p : nat).            (* the user's entry lives under bind pattern number p *)
+| SetHome (u : N) (p : nat)             (* the user's entry lives under bind pattern number p *)
+| PeerLogin (u pw : N).                 (* a login of (u, pw) processed by another instance sharing the primary *)
 
 Fixpoint set_nth {A} (i : nat) (v : A) (l : list A) : list A :=
   match l, i with
@@ -242,6 +286,7 @@ Definition pstep_gen (claim_checked : bool) (interp : N -> diag -> option bool) 
   | SetStyle d => (mk_pstate (st s) (dir s) (servers s) (jwss s) (acct s) d (extra_patterns s) (homes s), None)
   | SetHome u p => (mk_pstate (st s) (dir s) (servers s) (jwss s) (acct s) (style s) (extra_patterns s)
                               (aset N.eqb u p (homes s)), None)
+  | PeerLogin u pw => (peer_login claim_checked interp s u pw, None)
   | PTick dt => (with_st s (fst (stp (st s) (Tick (Z.max 0 dt)))), None)
   | PMode m => (with_st s (fst (stp (st s) (SetMode m))), None)
   | PSync => (with_st s (fst (stp (st s) (Sync None))), None)
@@ -258,6 +303,8 @@ Definition pstep_gen (claim_checked : bool) (interp : N -> diag -> option bool) 
 Definition pstep := pstep_gen true interp_code step.
 (* the diagnostic-sensitive reading, otherwise the same machine *)
 Definition pstep_ad := pstep_gen true interp_ad step.
+(* the text test of the code before the repair, otherwise the same machine *)
+Definition pstep_text := pstep_gen true interp_text step.
 
 Definition prun (n : nat) (ops : list pop) : pstate :=
   fold_left (fun s o => fst (pstep s o)) ops (pinit n).
@@ -298,3 +345,73 @@ Definition pw_case_ok (c : pw_case) : bool :=
                     | Some (s, _) => same_db (primary (st s)) p && same_db (cache (st s)) c
                     | None => false
                     end) snaps.
+
+(* ------------------------------------------------------------------ the property's predicates on an OBSERVED history *)
+(* Evaluated on the case file's observations (verdicts, snapshots of both stores after every op);
+   of the model only the environment's part of the state is used (which replicas are up, the
+   primary's mode: inputs carried by the ops) and the table of records (their numbers are the
+   harness's). *)
+Definition row_of (d : db) (u : N) : option srow := aget skey_eqb (u, pw_type) (signed d).
+
+Fixpoint snap_at (snaps : list (nat * db * db)) (i : nat) : option (db * db) :=
+  match snaps with
+  | [] => None
+  | (k, p, c) :: r => if Nat.eqb k i then Some (p, c) else snap_at r i
+  end.
+
+Definition is_up (sv : status) : bool := match sv with SUp => true | _ => false end.
+
+(* conclusion of c07_outage_login_pure, on the observation: a login during which no replica was up
+   left the user's row (record, expiry) in both stores as it was *)
+Definition outage_login_renewed (c : pw_case) : bool :=
+  let '((n, extra), ops, outs, snaps) := c in
+  let fix go (s : pstate) (ops : list pop) (i : nat) : bool :=
+    match ops with
+    | [] => false
+    | o :: r =>
+        (match o, i with
+         | Login u pw, S i' =>
+             negb (existsb is_up (servers s)) &&
+             match snap_at snaps i', snap_at snaps i with
+             | Some (p0, c0), Some (p1, c1) =>
+                 negb (opt_eqb srow_eqb (row_of p0 u) (row_of p1 u)) || negb (opt_eqb srow_eqb (row_of c0 u) (row_of c1 u))
+             | _, _ => false
+             end
+         | _, _ => false
+         end) || go (fst (pstep s o)) r (S i)
+    end in
+  go (pinit2 n extra) ops O.
+
+(* conclusion of c07_primary_row_decides, on the observation: a login that no replica answered
+   while the primary answers (mode Up) was ACCEPTED although the primary's row of the user, as
+   observed just before, is absent, expired, or not a genuine current record of this user hashing
+   this password *)
+(* [tbl] = the records as the HARNESS numbered them (the numbers the snapshots use), so that the
+   predicate does not depend on the model's own table when the implementation wrote records the
+   model would not have written *)
+Definition stale_cache_decided (tbl : list jws) (c : pw_case) : bool :=
+  let '((n, extra), ops, outs, snaps) := c in
+  let fix go (s : pstate) (ops : list pop) (outs : list (option bool)) (i : nat) : bool :=
+    match ops, outs with
+    | o :: r, v :: outs' =>
+        (match o, i, v with
+         | Login u pw, S i', Some true =>
+             negb (existsb is_up (servers s)) && mode_eqb (pmode (st s)) Up &&
+             match snap_at snaps i' with
+             | Some (p0, _) =>
+                 match row_of p0 u with
+                 | None => true
+                 | Some row =>
+                     negb (unexpired (now (st s)) row) ||
+                     match nth_error tbl (N.to_nat (sr_data row)) with
+                     | None => false
+                     | Some j => negb (jws_valid true (now (st s)) j && N.eqb (j_sub j) u && N.eqb (j_pw j) pw)
+                     end
+                 end
+             | None => false
+             end
+         | _, _, _ => false
+         end) || go (fst (pstep s o)) r outs' (S i)
+    | _, _ => false
+    end in
+  go (pinit2 n extra) ops outs O.
